@@ -161,6 +161,86 @@ func runC33(p *core.Prog, r *core.Report) {
 			checkServiceHandler(p, r3, fn)
 		}
 	}
+	runC33N3(p, r)
+}
+
+// runC33N3 — R5: the per-signature N3 callback and the script runner it ends in.
+func runC33N3(p *core.Prog, r *core.Report) {
+	r5 := r.Rule("C33.R5", "the N3 per-signature callback reports success only through verifyN3ScriptsNow()==nil on its own scripts with the hash of its own data argument; verifyN3Scripts reports success only when the contained script ran without error and returned true over a fake transaction built from its own arguments", 5)
+	cb := p.Func("internal/crypto.VerifyRequestSignaturesN3$1")
+	if cb == nil {
+		r.Fatalf("C33.R5: N3 callback closure not found")
+		return
+	}
+	hashesOwnData := func(v ssa.Value) bool {
+		mc, ok := v.(*ssa.MakeClosure)
+		if !ok {
+			return false
+		}
+		fn := mc.Fn.(*ssa.Function)
+		for _, b := range fn.Blocks {
+			ret, ok := b.Instrs[len(b.Instrs)-1].(*ssa.Return)
+			if !ok {
+				continue
+			}
+			c, ok := ret.Results[0].(*ssa.Call)
+			if !ok || core.CalleeName(c) != "crypto/sha256.Sum256" {
+				return false
+			}
+			// its argument is the captured `data` parameter of the callback
+			a := c.Call.Args[0]
+			if u, isU := a.(*ssa.UnOp); isU {
+				a = u.X
+			}
+			fv, isFV := a.(*ssa.FreeVar)
+			if !isFV {
+				return false
+			}
+			bound := core.ResolveFreeVar(fv)
+			if bound == nil || core.ParamIndex(cb, bound) != 0 {
+				return false
+			}
+		}
+		return true
+	}
+	now := core.G("n3-scripts-verified", core.ErrNil, "internal/crypto.verifyN3ScriptsNow").Where(func(s core.Site) bool {
+		a := s.Call.Common().Args
+		if len(a) != 5 {
+			return false
+		}
+		h, isH := a[1].(*ssa.Call)
+		return core.RootParam(cb, a[2]) == 1 && core.RootParam(cb, a[3]) == 2 && isH && strings.HasSuffix(core.CalleeName(h), "crypto/hash.Hash160") && core.RootParam(cb, h.Call.Args[0]) == 2 && hashesOwnData(a[4])
+	})
+	core.CheckSuccessFn(p, r5, cb, core.SuccessRule{ResultIdx: -1, MinReturns: 1, Guards: []core.Guard{now}})
+	if fn := p.Func("internal/crypto.verifyN3ScriptsNow"); fn == nil {
+		r.Fatalf("C33.R5: verifyN3ScriptsNow not found")
+	} else {
+		core.CheckSuccessFn(p, r5, fn, core.SuccessRule{ResultIdx: -1, MinReturns: 1, Guards: []core.Guard{core.G("scripts-run", core.ErrNil, "internal/crypto.verifyN3Scripts").Where(func(s core.Site) bool {
+			a := s.Call.Common().Args
+			d, isC := a[5].(*ssa.Call)
+			return core.ParamIndex(fn, a[2]) == 1 && core.ParamIndex(fn, a[3]) == 2 && core.ParamIndex(fn, a[4]) == 3 && isC && core.ParamIndex(fn, d.Call.Value) == 4
+		})}})
+	}
+	if fn := p.Func("internal/crypto.verifyN3Scripts"); fn == nil {
+		r.Fatalf("C33.R5: verifyN3Scripts not found")
+	} else {
+		ub := func(s core.Site) bool { return strings.HasSuffix(s.Name, "neo-go/pkg/rpcclient/unwrap.Bool") }
+		gs := []core.Guard{
+			{Name: "script-ran", Match: ub, Comps: []core.Comp{{Result: 1, Kind: core.ErrNil}}},
+			{Name: "script-returned-true", Match: ub, Comps: []core.Comp{{Result: 0, Kind: core.IsTrue}}},
+		}
+		core.CheckSuccessFn(p, r5, fn, core.SuccessRule{ResultIdx: -1, MinReturns: 1, Guards: gs})
+		// the fake transaction is built from this call's scripts, account and data hash
+		okTx := false
+		for _, s := range core.CallSites([]*ssa.Function{fn}, func(s core.Site) bool { return strings.HasSuffix(s.Name, "transaction.NewFakeTX") }) {
+			a := s.Call.Common().Args
+			sc, isC := a[0].(*ssa.Call)
+			if isC && core.CalleeName(sc) == "slices.Concat" && core.ParamIndex(fn, a[2]) == 5 {
+				okTx = true
+			}
+		}
+		r5.Check(okTx, core.FuncName(fn)+"#NewFakeTX", p.Pos(fn.Pos()), "the verified transaction is (invocation‖verification script, data hash) of this call", "the fake transaction is not built from this call's scripts and data hash")
+	}
 }
 
 func constBool(c *ssa.Const) (bool, bool) {
